@@ -42,11 +42,16 @@ def flow_pair(fl, rate=1.0, Q=None):
     return (lambda t, x: Q @ getL(t, Q.T @ np.asarray(x)) @ Q.T), (lambda t: Q @ getx(t))
 
 
-def run_member(pd, sc, o0, f0, getL, getx, rate=1.0):
-    """Integrate one member; returns lists of (orientations, fractions, F, dstrain)."""
+def run_member(pd, sc, o0, f0, getL, getx, rate=1.0, layout="C"):
+    """Integrate one member; returns lists of (orientations, fractions, F, dstrain).
+    layout "view": the initial orientations are handed over as a non-C-contiguous view with the same values
+    (what a client gets from e.g. `.transpose(0, 2, 1)` when converting conventions)."""
     phase, fabric = kernel.FAB[sc["fab"]]
     n = sc["n"]
-    m = pd.Mineral(phase=phase, fabric=fabric, regime=sc["regime"], n_grains=n, fractions_init=f0.copy(), orientations_init=o0.copy())
+    oinit = o0.copy()
+    if layout == "view":
+        oinit = np.ascontiguousarray(o0.transpose(0, 2, 1)).transpose(0, 2, 1)
+    m = pd.Mineral(phase=phase, fabric=fabric, regime=sc["regime"], n_grains=n, fractions_init=f0.copy(), orientations_init=oinit)
     params = layerb.make_params(dict(M=sc["par"]["M"], chi=sc["par"]["chi"], asm=[phase], phiOl=10, x=[5, 0]))
     parts = sc["part"]
     T = (FINE_STRAIN if parts >= 100 else TOTAL_STRAIN) / rate
